@@ -1,6 +1,7 @@
 package main
 
 import (
+	"go/token"
 	"sort"
 	"strings"
 
@@ -72,6 +73,22 @@ func checkC01(c *Ctx) {
 		bk := d.Key(blk)
 		innerBk := d.Flow.K.Key(blk)
 		// C01.2 strictly higher view than the last committed block
+		if d.In == commitInner {
+			// the iterative form: the uncommitted ancestors are collected in a slice by following the
+			// parent links, and executed from the last collected (oldest) to the first
+			if iter, why := c01IterativeForm(fl, blk, e.Instr); iter {
+				c.Held("C01.2", "commitInner: view gate", p.InstrPos(e.Instr), why)
+				c.Held("C01.3", "commitInner: ancestor first", p.InstrPos(e.Instr), why)
+				w := reachAvoid(e.Instr, func(in ssa.Instruction) bool { return isReturn(in) || in == e.Instr }, func(in ssa.Instruction) bool {
+					ci, ok := in.(ssa.CallInstruction)
+					return ok && calleeIs(ci.Common(), updCB) && d.Flow.K.Key(ci.Common().Args[1]) == innerBk
+				})
+				c.Check(w == nil, "C01.4", "commitInner: record committed block", p.InstrPos(e.Instr),
+					"every path from the emission to a return or to the next emission calls UpdateCommittedBlock("+bk+")",
+					"a return or the next emission is reachable after the emission without UpdateCommittedBlock on the same block")
+				continue
+			}
+		}
 		ok := hasCmp(facts, "<", is(kBlockView+"p2)"), is(kBlockView+bk+")"))
 		c.Check(ok && bk == "p1", "C01.2", "commitInner: view gate", p.InstrPos(e.Instr),
 			"CommitEvent{Block: block} is emitted only under committedBlock.View() < block.View()",
@@ -156,4 +173,125 @@ func replaceName(names []string, from, to string) []string {
 	}
 	sort.Strings(out)
 	return out
+}
+
+
+// c01IterativeForm recognises the loop form of commitInner and decides the two clauses the
+// recursive form gets from the recursion (C01.2 view gate, C01.3 ancestor first):
+//
+//	for cur := block; committed.View() < cur.View(); cur = parent { parent, ok := Get(cur.Parent()); if !ok { return err }; S = append(S, cur) }
+//	for i := len(S) - 1; i >= 0; i-- { emit(S[i]) }
+//
+// (a) the emitted block is S[i], S a local slice that only grows by append(S, cur) and does not
+// change once an emission was reached; (b) every appended cur satisfies committed.View() <
+// cur.View() at the append, and cur is the block parameter or the block found under the previous
+// cur's parent hash; (c) emissions are reached only after the walk arrived at a block with
+// View() <= committed.View() (the chain is complete); (d) i starts at len(S)-1, is decremented by
+// one and the emission is under i >= 0: the oldest collected block is emitted first.
+func c01IterativeForm(fl *Flow, blk ssa.Value, emit ssa.Instruction) (bool, string) {
+	fn := fl.Fn
+	ld, ok := blk.(*ssa.UnOp)
+	if !ok {
+		return false, ""
+	}
+	ia, ok := ld.X.(*ssa.IndexAddr)
+	if !ok {
+		return false, ""
+	}
+	S, ok := ia.X.(*ssa.Phi)
+	if !ok {
+		return false, ""
+	}
+	// (a)
+	var appends []*ssa.Call
+	for _, e := range S.Edges {
+		if isNilConst(e) {
+			continue
+		}
+		call, ok := e.(*ssa.Call)
+		if !ok {
+			return false, ""
+		}
+		if b, isB := call.Call.Value.(*ssa.Builtin); !isB || b.Name() != "append" || call.Call.Args[0] != ssa.Value(S) {
+			return false, ""
+		}
+		appends = append(appends, call)
+	}
+	if len(appends) == 0 {
+		return false, ""
+	}
+	for _, ap := range appends {
+		if reachAvoidFromPlain(emit.Block(), 0, func(x ssa.Instruction) bool { return x == ssa.Instruction(ap) }, func(ssa.Instruction) bool { return false }, map[*ssa.BasicBlock]bool{}) != nil {
+			return false, ""
+		}
+	}
+	// (b)
+	var curKeys []string
+	for _, ap := range appends {
+		facts := fl.At(ap)
+		n := 0
+		bad := false
+		storedInto(sliceBase(ap.Call.Args[1]), func(el ssa.Value) bool {
+			n++
+			ck := fl.K.Key(el)
+			if !hasCmp(facts, "<", is(kBlockView+"p2)"), is(kBlockView+ck+")")) {
+				bad = true
+				return false
+			}
+			ph, isPhi := el.(*ssa.Phi)
+			if !isPhi {
+				bad = bad || ck != "p1"
+				return false
+			}
+			for _, e := range ph.Edges {
+				ek := fl.K.Key(e)
+				if ek == "p1" {
+					continue
+				}
+				// the block found under the current block's parent hash, and the append is reached only if it was found
+				if !(strings.HasPrefix(ek, kBCGet) && strings.Contains(ek, ", "+kBlockParent+ck+"))") && strings.HasSuffix(ek, "#0")) ||
+					!trueOf(facts, is(strings.TrimSuffix(ek, "#0")+"#1")) {
+					bad = true
+				}
+			}
+			curKeys = append(curKeys, ck)
+			return false
+		})
+		if bad || n != 1 {
+			return false, ""
+		}
+	}
+	// (c)
+	at := fl.At(emit)
+	for _, ck := range curKeys {
+		if !hasCmp(at, "<=", is(kBlockView+ck+")"), is(kBlockView+"p2)")) {
+			return false, ""
+		}
+	}
+	// (d)
+	idx, ok := ia.Index.(*ssa.Phi)
+	if !ok || len(idx.Edges) != 2 {
+		return false, ""
+	}
+	init, step := false, false
+	for _, e := range idx.Edges {
+		b, ok := e.(*ssa.BinOp)
+		if !ok || b.Op != token.SUB || !isIntConst(b.Y, 1) {
+			return false, ""
+		}
+		if b.X == ssa.Value(idx) {
+			step = true
+			continue
+		}
+		if call, ok := b.X.(*ssa.Call); ok {
+			if bi, isB := call.Call.Value.(*ssa.Builtin); isB && bi.Name() == "len" && call.Call.Args[0] == ssa.Value(S) {
+				init = true
+			}
+		}
+	}
+	if !init || !step || !hasCmp(at, "<=", is("c:0"), is(fl.K.Key(idx))) {
+		return false, ""
+	}
+	_ = fn
+	return true, "iterative form: the emitted block is an element of the slice of uncommitted ancestors; every element was appended under committedBlock.View() < its View() and is the block itself or the block found under the previous element's parent hash; emissions start only after the walk reached a block with View() <= committedBlock.View(); the slice is consumed from its last element to its first (oldest ancestor first)"
 }
